@@ -46,6 +46,11 @@ type GenOpts struct {
 	Rich      bool   // bias towards several imports / interfaces (C13)
 	SetupName string // force the setup file's name (e.g. "my.setup.go")
 	Nested    bool   // force a nested package directory
+	// NoSiblings: the package directory holds no other Go file of the package
+	// (so that a variant may rename the package)
+	NoSiblings bool
+	// DotGoDir: a directory on the way to the setup file is called "acme.go"
+	DotGoDir bool
 	// Clean: only fields whose types are identical on both sides, no layout that
 	// draws a warning: a run over such a world is free of diagnostics
 	Clean bool
@@ -177,6 +182,10 @@ func GenWorld(r *Rng, opts GenOpts, variantCount int) *WorldSpec {
 	if legacyHooks {
 		feat["same-named-hooks-package-elsewhere"] = true
 	}
+	twoBlankHooks := legacyHooks && r.Chance(1, 2) && !opts.ForceHooks
+	if twoBlankHooks {
+		feat["two-blank-imports-same-base"] = true
+	}
 	// a blank import whose last path element equals the name of a regular
 	// import, with a notation that refers to that name (import-table pressure)
 	blankSameBase := opts.Rich && r.Chance(1, 2) || r.Chance(1, 6)
@@ -184,13 +193,13 @@ func GenWorld(r *Rng, opts GenOpts, variantCount int) *WorldSpec {
 	// converter interface embedding interfaces that are declared in OTHER files of
 	// the package, each with a method that draws a warning (diagnostics whose
 	// positions lie in several files)
-	embedSiblings := (opts.Rich && r.Chance(1, 3) || r.Chance(1, 10)) && !opts.Clean
+	embedSiblings := (opts.Rich && r.Chance(1, 3) || r.Chance(1, 10)) && !opts.Clean && !opts.NoSiblings
 
 	// --- converter package
 	pkgName := Pick(r, []string{"conv", "converter", "c", "mapping"})
 	// names matter to path derivation: several dots, stems ending in characters
 	// of the extension, a stem that already contains ".gen", very short names
-	setupName := Pick(r, []string{"setup.go", "setup.go", "conv.go", "my.setup.go", "gen_setup.go", "catalog.go", "mapping.go", "geo.go", "a.go", "x.gen.go", "Setup-v2.go", "go.go"})
+	setupName := Pick(r, []string{"setup.go", "setup.go", "conv.go", "my.setup.go", "gen_setup.go", "catalog.go", "mapping.go", "geo.go", "a.go", "x.gen.go", "Setup-v2.go", "go.go", "user.gorm.go", "conv.gop.go"})
 	dir := "mod/" + pkgName
 	if opts.SetupName != "" {
 		setupName = opts.SetupName
@@ -198,6 +207,11 @@ func GenWorld(r *Rng, opts GenOpts, variantCount int) *WorldSpec {
 	if r.Chance(1, 4) || opts.Nested {
 		dir = "mod/internal/" + pkgName
 		feat["nested-dir"] = true
+	}
+	if r.Chance(1, 10) || opts.DotGoDir {
+		// ".go" occurs in the path before the extension
+		dir = "mod/acme.go/" + pkgName
+		feat["dot-go-directory"] = true
 	}
 	if strings.Count(setupName, ".") > 1 {
 		feat["dotted-setup-name"] = true
@@ -252,6 +266,11 @@ func GenWorld(r *Rng, opts GenOpts, variantCount int) *WorldSpec {
 		}
 		if hooksPkg {
 			imports = append(imports, "\t_ \"example.com/w/"+strings.TrimPrefix(dir, "mod/")+"/hooks\"")
+			if twoBlankHooks {
+				// a second blank import ending in the same path element, listed after the
+				// first in half of the cases (the import list is shuffled below)
+				imports = append(imports, "\t_ \"example.com/w/legacy/hooks\"")
+			}
 		}
 
 		nIntf := 1
@@ -525,7 +544,7 @@ func GenWorld(r *Rng, opts GenOpts, variantCount int) *WorldSpec {
 		}
 		// import order as the user wrote it: seeded, not sorted
 		Shuffle(vr, imports)
-		if opts.ForceHooks {
+		if opts.ForceHooks || twoBlankHooks {
 			d := defs[0]
 			gi := genIntf{name: "HookedConv", marked: true}
 			gi.methods = append(gi.methods, genMethod{name: "HookedToModel", notations: []string{":postprocess hooks.Post" + d.name + "true"}, sig: "HookedToModel(*" + domAlias + "." + d.name + ") *" + modAlias + "." + d.name})
@@ -608,7 +627,9 @@ func GenWorld(r *Rng, opts GenOpts, variantCount int) *WorldSpec {
 		}
 		w.Files[dir+"/hooks/hooks.go"] = hb.String()
 		if legacyHooks {
-			w.Files["mod/legacy/hooks/hooks.go"] = hb.String()
+			// the same-named package elsewhere exports the same functions with another
+			// shape (source by value), so that it shows in the output which one was used
+			w.Files["mod/legacy/hooks/hooks.go"] = strings.ReplaceAll(strings.ReplaceAll(hb.String(), ", rhs *domain.", ", rhs domain."), ", rhs *model.", ", rhs model.")
 		}
 	}
 	if embedSiblings && opts.Reject != "no-interface" {
@@ -618,11 +639,11 @@ func GenWorld(r *Rng, opts GenOpts, variantCount int) *WorldSpec {
 				"// Emb" + n + " is embedded by the converter interface of the setup file.\ntype Emb" + n + " interface {\n\tProbe" + n + "ToModel(*domain.Probe) *model.Probe\n\tProbe" + n + "2(*domain.Probe) *model.Probe\n}\n"
 		}
 	}
-	if r.Chance(1, 3) {
+	if r.Chance(1, 3) && !opts.NoSiblings {
 		feat["sibling-file"] = true
 		w.Files[dir+"/doc.go"] = "// Package " + pkgName + " documentation.\npackage " + pkgName + "\n\n// SiblingConst lives in an ordinary file of the package.\nconst SiblingConst = 42\n"
 	}
-	if r.Chance(1, 4) {
+	if r.Chance(1, 4) && !opts.NoSiblings {
 		feat["sibling-marked-interface"] = true
 		w.Files[dir+"/other_setup.go"] = "//go:build convergen\n\npackage " + pkgName + "\n\n// :convergen\ntype Elsewhere interface {\n\tDo(*" + "SiblingT) *SiblingT\n}\n\ntype SiblingT struct{ X int }\n"
 	}
